@@ -38,8 +38,12 @@ import (
 
 	"github.com/golang-jwt/jwt/v4"
 	"github.com/zeromicro/go-zero/core/codec"
+	"github.com/zeromicro/go-zero/core/conf"
 	"github.com/zeromicro/go-zero/core/logx"
+	"github.com/zeromicro/go-zero/rest"
 	"github.com/zeromicro/go-zero/rest/handler"
+	"github.com/zeromicro/go-zero/rest/httpx"
+	"github.com/zeromicro/go-zero/rest/router"
 	"verifh/hx"
 )
 
@@ -87,6 +91,7 @@ type CSReq struct {
 	SToff    *int64  `json:"stoff"`
 	SKey     *string `json:"skey"`
 	BodyRaw  *string `json:"bodyraw"`  // wire body override (after signing unless sbody given)
+	HdrFmt   string  `json:"hdrfmt"`   // "" | nospace | spaces | trailing | dupsig_good_last | dupsig_bad_last | upper | junk
 	CipherOp string  `json:"cipherop"` // "" | trunc | lastbyte | wrongkey : applied to the ciphertext before base64
 }
 
@@ -106,6 +111,20 @@ type Case struct {
 	Limit int64 `json:"limit"`
 	// cs: also put the JWT gate in front (as engine.go does), token per Reqs[0]
 	WithJwt bool `json:"withjwt"`
+	// eng: a real rest.Server; route groups with their options; the request goes to Groups[Target[0]].Routes[Target[1]]
+	Groups []Group `json:"groups"`
+	Target [2]int  `json:"target"`
+	UaCb   bool    `json:"uacb"`
+	UsCb   bool    `json:"uscb"`
+	// hdr: raw header values for httpx.ParseHeader
+	Hdrs []string `json:"hdrs"`
+}
+
+type Group struct {
+	Jwt    bool        `json:"jwt"`
+	Sig    bool        `json:"sig"`
+	Prefix string      `json:"prefix"`
+	Routes [][2]string `json:"routes"` // method, path
 }
 
 // ---------------------------------------------------------------------------
@@ -168,6 +187,9 @@ type CSObs struct {
 	Panic     string  `json:"panic,omitempty"`
 	Ran2      bool    `json:"ran2"`
 	JwtRan    bool    `json:"jwtran"`
+	RanRoute  string  `json:"ranroute"`
+	UaCalled  bool    `json:"uacalled"`
+	EngErr    string  `json:"engerr,omitempty"`
 	JwtView   *JView  `json:"jwtview,omitempty"`
 	View      CSView  `json:"view"`
 	CodecEnc  string  `json:"codecenc"` // hex EcbEncrypt(key, body)
@@ -175,7 +197,13 @@ type CSObs struct {
 	RawDec    string  `json:"rawdec"`   // ok:<hex> | err | panic   of EcbDecrypt(key, B64)
 }
 
+type HObs struct {
+	Raw   string            `json:"raw"`   // hex
+	Attrs map[string]string `json:"attrs"` // hex -> hex
+}
+
 type Out struct {
+	Hdr []HObs `json:"hdr,omitempty"`
 	ID  int    `json:"id"`
 	Jwt []JObs `json:"jwt,omitempty"`
 	CS  *CSObs `json:"cs,omitempty"`
@@ -644,14 +672,35 @@ func buildCS(c Case, now int64) built {
 		fields = append(fields, "signature="+sig)
 	}
 	b.header = strings.Join(fields, "; ")
+	upper := false
+	switch q.HdrFmt {
+	case "nospace":
+		b.header = strings.Join(fields, ";")
+	case "spaces":
+		b.header = "  " + strings.Join(fields, " \t;  ") + " \t"
+	case "trailing":
+		b.header = ";" + strings.Join(fields, "; ") + ";;"
+	case "junk":
+		b.header = "x; =y; " + strings.Join(fields, "; foo=bar; ") + "; signature"
+	case "dupsig_good_last":
+		if q.Hdr != "nosig" {
+			b.header = "signature=AAAA; " + b.header
+		}
+	case "dupsig_bad_last":
+		b.header = b.header + "; signature=AAAA"
+		sig = "AAAA"
+	case "upper":
+		b.header = strings.NewReplacer("key=", "Key=", "secret=", "Secret=", "signature=", "Signature=").Replace(b.header)
+		upper = true
+	}
 	b.hasHdr = q.Hdr != "missing"
 
 	// ---- independent view -------------------------------------------------
 	v := CSView{Now: now, DTab: map[string]string{}, ETab: map[string]string{}}
-	if b.hasHdr {
+	if b.hasHdr && !upper {
 		v.HasFp = q.Hdr != "nofp" && q.Fp != ""
 		v.HasSecret = q.Hdr != "nosecret"
-		v.HasSig = q.Hdr != "nosig"
+		v.HasSig = q.Hdr != "nosig" || q.HdrFmt == "dupsig_bad_last"
 	}
 	for _, k := range c.Keys {
 		if k == q.Fp {
@@ -747,6 +796,96 @@ func (b built) request(c Case) *http.Request {
 	return r
 }
 
+// buildEngine registers the route groups on a real rest.Server with the public API and
+// lets the engine bind them (engine.bindRoutes -> appendAuthHandler / signatureVerifier and
+// the whole default middleware chain) onto a router we keep.  Server.Start binds the routes
+// and then tries to listen; the configured port is invalid on purpose, so Start fails right
+// after binding (its panic is recovered) and nothing is ever listened on.
+func buildEngine(c Case, route http.HandlerFunc, o *CSObs) http.Handler {
+	var rc rest.RestConf
+	if err := conf.LoadFromJsonBytes([]byte(`{"Name":"c18","Host":"127.0.0.1","Port":70000,"CpuThreshold":0,`+
+		`"Middlewares":{"Shedding":false,"Log":false,"Prometheus":false,"Trace":false,"Metrics":false}}`), &rc); err != nil {
+		hx.Fatal("rest conf: %v", err)
+	}
+	rt := router.NewRouter()
+	opts := []rest.RunOption{rest.WithRouter(rt)}
+	if c.UaCb {
+		opts = append(opts, rest.WithUnauthorizedCallback(func(w http.ResponseWriter, r *http.Request, err error) {
+			o.UaCalled = true
+		}))
+	}
+	if c.UsCb {
+		opts = append(opts, rest.WithUnsignedCallback(func(w http.ResponseWriter, r *http.Request, next http.Handler,
+			strict bool, code int) {
+			o.Code = code
+			if strict {
+				w.WriteHeader(http.StatusForbidden)
+			} else {
+				next.ServeHTTP(w, r)
+			}
+		}))
+	}
+	srv, err := rest.NewServer(rc, opts...)
+	if err != nil {
+		hx.Fatal("rest server: %v", err)
+	}
+	logx.Disable()
+	var keys []rest.PrivateKeyConf
+	for _, k := range c.Keys {
+		keys = append(keys, rest.PrivateKeyConf{Fingerprint: k, KeyFile: rsaKeys[k].file})
+	}
+	for _, g := range c.Groups {
+		var ropts []rest.RouteOption
+		if g.Jwt {
+			if c.Prev == "" {
+				ropts = append(ropts, rest.WithJwt(c.Secret))
+			} else {
+				ropts = append(ropts, rest.WithJwtTransition(c.Secret, c.Prev))
+			}
+		}
+		if g.Sig {
+			ropts = append(ropts, rest.WithSignature(rest.SignatureConf{Strict: c.Strict,
+				Expiry: time.Duration(c.Tol) * time.Second, PrivateKeys: keys}))
+		}
+		if g.Prefix != "" {
+			ropts = append(ropts, rest.WithPrefix(g.Prefix))
+		}
+		var routes []rest.Route
+		for _, mp := range g.Routes {
+			label := mp[0] + " " + g.Prefix + mp[1]
+			routes = append(routes, rest.Route{Method: mp[0], Path: mp[1], Handler: func(w http.ResponseWriter, r *http.Request) {
+				o.RanRoute = label
+				route(w, r)
+			}})
+		}
+		srv.AddRoutes(routes, ropts...)
+	}
+	func() {
+		defer func() {
+			if p := recover(); p != nil {
+				if e, ok := p.(error); !ok || !strings.Contains(e.Error(), "70000") {
+					o.EngErr = fmt.Sprint(p)
+				}
+			}
+		}()
+		srv.Start()
+	}()
+	return rt
+}
+
+func runHdr(c Case) []HObs {
+	var res []HObs
+	for _, h := range c.Hdrs {
+		raw := latin(h)
+		o := HObs{Raw: hex.EncodeToString(raw), Attrs: map[string]string{}}
+		for k, v := range httpx.ParseHeader(string(raw)) {
+			o.Attrs[hex.EncodeToString([]byte(k))] = hex.EncodeToString([]byte(v))
+		}
+		res = append(res, o)
+	}
+	return res
+}
+
 func runCS(c Case) *CSObs {
 	q := c.Req
 	o := &CSObs{Code: -1}
@@ -771,7 +910,9 @@ func runCS(c Case) *CSObs {
 	})
 	mk := func(cbs ...handler.UnsignedCallback) http.Handler {
 		var h http.Handler
-		if c.Kind == "crypt" {
+		if c.Kind == "eng" {
+			return buildEngine(c, route, o)
+		} else if c.Kind == "crypt" {
 			h = handler.LimitCryptionHandler(limit, latin(q.AesKey))(route)
 		} else {
 			h = handler.LimitContentSecurityHandler(limit, decs, tol, c.Strict, cbs...)(route)
@@ -788,11 +929,12 @@ func runCS(c Case) *CSObs {
 	var b built
 	for attempt := 0; attempt < 6; attempt++ {
 		*ranp, o.Seen, o.JwtRan, o.Ran2, o.Code = false, "", false, false, -1
+		o.RanRoute, o.UaCalled = "", false
 		ranp = &o.Ran
 		n0 := time.Now().Unix()
 		b = buildCS(c, n0)
 		r := b.request(c)
-		if c.WithJwt && len(c.Reqs) > 0 {
+		if (c.WithJwt || c.Kind == "eng") && len(c.Reqs) > 0 {
 			jq := c.Reqs[0]
 			jnow := jq.Now
 			jwt.TimeFunc = func() time.Time { return time.Unix(jnow, 0) }
@@ -881,8 +1023,10 @@ func main() {
 		switch c.Kind {
 		case "jwt":
 			out.Jwt = runJwt(c)
-		case "cs", "crypt":
+		case "cs", "crypt", "eng":
 			out.CS = runCS(c)
+		case "hdr":
+			out.Hdr = runHdr(c)
 		default:
 			out.Err = "unknown kind " + c.Kind
 		}
